@@ -31,13 +31,14 @@ func c18Decl(layout int, subOpt bool, defaultOpts bool, pano bool, ignoreUnknown
 		{Field: "Opt", Short: "o", Long: "opt", Type: decl.TString, Optional: "yes", OptionalVal: []string{"ov"}},
 		{Field: "Num", Short: "n", Long: "num", Type: decl.TInt},
 		{Field: "Secret", Long: "secret", Type: decl.TBool, Hidden: "yes"},
+		{Field: "Token", Long: "token", Short: "T", Type: decl.TString, Hidden: "yes"}, // hidden, takes an argument: never offered, but its argument is skipped like any other when typed
 		{Field: "Vee", Long: "vee", Type: decl.TBool},
 		{Field: "ShortOnly", Short: "x", Type: decl.TBool},
 		{Field: "HiddenShort", Short: "y", Type: decl.TBool, Hidden: "yes"},
 		{Field: "Umlaut", Short: "ü", Long: "umlaut", Type: decl.TWords2},
 		{Field: "Color", Short: "c", Long: "color", Type: decl.TOnOff},
 		{Field: "PW", Long: "pw", Type: decl.TPWords},
-		{Field: "UpperShort", Short: "Z", Type: decl.TBool}, // sorts before every lower-case short name, after every long name
+		{Field: "UpperShort", Short: "Z", Type: decl.TBool},    // sorts before every lower-case short name, after every long name
 		{Field: "VeeMore", Long: "vee-more", Type: decl.TBool}, // --vee, typed completely, is still a prefix of this one
 		{Field: "CI", Long: "ci", Type: decl.TWordsCI},         // its completer answers in lower case whatever the case typed
 	}}
@@ -46,7 +47,7 @@ func c18Decl(layout int, subOpt bool, defaultOpts bool, pano bool, ignoreUnknown
 		{Field: "Force", Short: "F", Long: "force", Type: decl.TBool},
 		{Field: "From", Long: "from", Type: decl.TWords2},
 		{Field: "Verbose", Long: "verbatim", Type: decl.TBool},
-		{Field: "Num2", Long: "num", Type: decl.TInt}, // same long name as the parser's -n/--num: shadows it, -n stays the parser's
+		{Field: "Num2", Long: "num", Type: decl.TInt},   // same long name as the parser's -n/--num: shadows it, -n stays the parser's
 		{Field: "ShortX", Short: "c", Type: decl.TBool}, // short-only, same letter as the parser's -c/--color: inside add, -c is this flag and --color stays the parser's
 	}}
 	pa := func(n string, t *decl.Type) *decl.PosArg { return &decl.PosArg{Field: n, Type: t} }
@@ -82,6 +83,7 @@ func c18Decl(layout int, subOpt bool, defaultOpts bool, pano bool, ignoreUnknown
 }
 
 var c18Units = [][]string{
+	{"--token", "add"}, // the argument of a hidden option, spelled like a command
 	{"-v"}, {"--verbose"}, {"-f"}, {"-f", "alpha"}, {"--file=alpha"}, {"-fbeta"}, {"-vf"}, {"-o"}, {"--opt=x"}, {"-n", "5"}, {"--num"},
 	{"add"}, {"a2"}, {"rm"}, {"deep"}, {"adx"}, {"zz"}, {"alpha"}, {"7"}, {"--"}, {"--force"}, {"--from", "gamma"}, {"-x"}, {"-ü", "gamma"}, {"-ü"}, {"-vü"}, {"--color", "on"}, {"-c"}, {"--pw"}, {"--ci"}, {"-qv"},
 }
@@ -425,7 +427,7 @@ func init() {
 		ShardDepth: 7,
 		Body:       body,
 		Rule: "(in the cells where the number of typed words plus the length of the partial word is odd, the tag-built parser has answered six other completion requests before - partial command words at two levels, partial option names, a word nothing matches) declaration with Completer-typed options (short+long, long-only, a multi-byte short name, two different word lists, a completer that matches case-insensitively and answers in lower case), an optional-argument option, hidden long and hidden short-only options, hidden command, short-only options in lower and upper case, commands sharing a prefix (add, adx), alias, sub-subcommand; " +
-			"positionals of add in 5 layouts (none, [Words], [Words,int], [int,Words], [Words, ...Words2]) x subcommands-optional on the parser yes/no x HelpFlag yes/no (+ IgnoreUnknown, + PassAfterNonOption on the two layouts whose positionals complete differently: after the first plain word only positional values are asserted) x {struct tags, API build where a group of the parser is added after the commands and after a first completion and parse on the half-built parser}; every valid prefix (the CLM in prefix mode accepts it) of <= 3 units (quick: <= 2 on the HelpFlag variants, with optional subcommands and on two of the five positional layouts; thorough: <= 4 on the [Words,int] layout without HelpFlag) over 31 units " +
+			"positionals of add in 5 layouts (none, [Words], [Words,int], [int,Words], [Words, ...Words2]) x subcommands-optional on the parser yes/no x HelpFlag yes/no (+ IgnoreUnknown, + PassAfterNonOption on the two layouts whose positionals complete differently: after the first plain word only positional values are asserted) x {struct tags, API build where a group of the parser is added after the commands and after a first completion and parse on the half-built parser}; every valid prefix (the CLM in prefix mode accepts it) of <= 3 units (quick: <= 2 on the HelpFlag variants, with optional subcommands and on two of the five positional layouts; thorough: <= 4 on the [Words,int] layout without HelpFlag) over 32 units (incl. a hidden argument-taking option whose separate argument is spelled like a command) " +
 			"(flags, separate / attached / '=' arguments, pending option, cluster ending in a pending option, optional-argument option, command words and alias, plain words, numbers, terminator) x 38 partial last words; " +
 			"oracle from the CLM context after the prefix: (a) '-' / '--p' => exactly the non-hidden options in scope with that prefix, (b) value position of a Completer-typed option or positional => exactly its words re-attached to the spelling, " +
 			"(c) otherwise the non-hidden subcommands with that prefix, (d) sorted, (e) every offered option/command re-parsed by the real parser at that position is not unknown, (f) the real parser's Active chain on the typed words equals the model's",
